@@ -68,7 +68,22 @@ def diagnose(tr: dict, clause: str) -> dict:
     return facts
 
 
-def _record_shipped(path: str, tier: str, prop: str, res: Result) -> int:
+def _early_stateful():
+    """C08: decoded values whose search involves key guessing are scanned in the first second of the process; their
+    independent re-scans are made at the end (see _record_shipped), when the process is past any start-up deadline."""
+    from .record import Recorder
+
+    rec = Recorder()
+    trs = []
+    for i, data in enumerate(drivers.xor_state_inputs()):
+        tr = rec.scan(data, 2 + i % 3, subs=True, defer_subs=True)
+        tr["origin"] = "shipped"
+        tr["registry"] = "default; scanned at start-up, independent re-scans made late"
+        trs.append(tr)
+    return rec, trs
+
+
+def _record_shipped(path: str, tier: str, prop: str, res: Result, early=None) -> int:
     """Direction B: scans with the shipped decoders."""
     from .record import Recorder
 
@@ -86,6 +101,16 @@ def _record_shipped(path: str, tier: str, prop: str, res: Result) -> int:
     inputs += drivers.KNOWN_TRIGGERS
     kw_inputs = set(drivers.keyword_orders(rng, 60 if tier == "quick" else 1200))
     inputs += sorted(kw_inputs)
+    stateful = drivers.xor_state_inputs()
+    inputs += stateful
+    inputs += drivers.CONTEXT_ONLY + drivers.twice()
+    from .props_net import url_lattice, win_lattice      # decoders that pre-assemble children: spans inside a rewritten value
+
+    wl, ul = win_lattice(rng, tier), url_lattice(rng, tier)
+    inputs += [b"run " + wl[i] + b" now" for i in range(0, len(wl), max(1, len(wl) // (60 if tier == "quick" else 600)))]
+    inputs += [b"get " + ul[i] + b" now" for i in range(0, len(ul), max(1, len(ul) // (40 if tier == "quick" else 400)))]
+    if prop == "C08":
+        inputs += drivers.deep_paren_sweep()
     from .props_total import pe_grid      # truncated / malformed / embedded PE headers (spans that tempt a decoder past the end of its text)
 
     grid = pe_grid(rng, tier)
@@ -96,15 +121,41 @@ def _record_shipped(path: str, tier: str, prop: str, res: Result) -> int:
     light = Recorder(get_analyzers())
     ks = [-1, 0, 1, 2, 3, 9, 10, 11]
     n = 0
+    deferred: list[dict] = []
     with open(path, "w") as f:
         for i, data in enumerate(inputs):
             rec = full if (i % 4 == 0 or data in kw_inputs) else light
-            k = 10 if (rng.random() < 0.5 or data in drivers.KNOWN_TRIGGERS) else rng.choice(ks)
-            tr = rec.scan(data, k, lo=(prop == "C07"), subs=(prop == "C08"))
+            k = 10 if (rng.random() < 0.5 or data in drivers.KNOWN_TRIGGERS or i < len(lits)) else rng.choice(ks)
+            if data in stateful:
+                k = 2 + stateful.index(data) % 3
+            late = False
+            tr = rec.scan(data, k, lo=(prop == "C07"), subs=(prop == "C08"), lo_first=(i % 2 == 1 or data in stateful), defer_subs=late)
             tr["origin"] = "shipped"
             tr["registry"] = "default" if rec is full else "analyzers"
+            if late:
+                deferred.append(tr)
+                continue
             f.write(json.dumps(tr) + "\n")
             n += 1
+            if (i % 3 == 0 or data in drivers.CONTEXT_ONLY) and not late:
+                # the same bytes once more, as a new object, straight after: what a decoder keeps between calls must not show
+                again = bytes(bytearray(data))
+                tr = rec.scan(again, k, lo=(prop == "C07"), subs=(prop == "C08"))
+                tr["origin"] = "shipped"
+                tr["registry"] = ("default" if rec is full else "analyzers") + ", second scan of the same bytes"
+                f.write(json.dumps(tr) + "\n")
+                n += 1
+        if early is not None:
+            # the independent re-scans of these are made once the process is well past any start-up deadline / time-to-live
+            import time
+
+            from .common import T0
+
+            time.sleep(max(0.0, 12.0 - (time.time() - T0)))
+            early[0].finish_subs()
+            for tr in early[1]:
+                f.write(json.dumps(tr) + "\n")
+                n += 1
     res.sample({"input": inputs[len(lits)].decode("latin-1"), "k": 10, "registry": "shipped decoders"})
     return n
 
@@ -116,6 +167,7 @@ def run(prop: str, tier: str) -> int:
         "trace validation trusts the recording wrapper (snapshot at decoder return, identities kept) and Python's json",
         "decoders are deterministic functions of the text they are given (checked: a text searched twice must yield equal hits)",
     ]
+    early = _early_stateful() if prop == "C08" else None
     # 1. the specification itself
     engine.model_check(res, ["q"] if tier == "quick" else ["q", "t3", "t4", "t2", "n4", "c4"])
     if prop in ASIS_BREAKS:
@@ -145,7 +197,7 @@ def run(prop: str, tier: str) -> int:
             _t, n2 = engine.replay_worlds(fam, 15000, p2, lo=(prop == "C07"), subs=(prop == "C08"))
             jobs.append((p2, n2))
     pb = os.path.join(work, "shipped.ndjson")
-    nb = _record_shipped(pb, tier, prop, res)
+    nb = _record_shipped(pb, tier, prop, res, early)
     jobs.append((pb, nb))
     results = engine.validate_sharded(jobs)
 
